@@ -462,6 +462,17 @@ def execute(scn):
                 elif not same(cur, sm):
                     bad("C13.set-value", f"C13.set-value@{c}+detector-assign", {"op": k})
             model[(d, c)] = cur
+        # aliasing is not constrained by the statement: a container that shares its array object with the one
+        # just operated on (e.g. after 'detB.pixel = detA.pixel') legitimately follows in-place changes
+        try:
+            mine = get_c(dets[d], c)._array
+            if mine is not None:
+                for (dd, cc) in model:
+                    if (dd, cc) != (d, c) and get_c(dets[dd], cc)._array is mine:
+                        model[(dd, cc)] = content(get_c(dets[dd], cc))
+                        stats["aliased_containers"] = 1
+        except Exception:  # noqa: BLE001
+            pass
         # invariant after every mutating operation, on every container of every detector
         for (dd, cc), _m in model.items():
             msg = check_invariant(cc, get_c(dets[dd], cc), *shapes[dd])
